@@ -64,6 +64,16 @@ func (sc *pubScn) c09CheckRows(st *c09State, what string, trigger string) {
 		st.live[uid] = true
 		st.read[uid], st.recv[uid] = row.ReadSeqId, row.RecvSeqId
 	}
+	// a subscription whose row is gone altogether (p2p topic deleted after both participants left) has ended as well
+	for uid := range st.live {
+		_, g := grp[uid]
+		_, c := chn[uid]
+		if !g && !c {
+			delete(st.live, uid)
+			delete(st.read, uid)
+			delete(st.recv, uid)
+		}
+	}
 	for uid, row := range grp {
 		check(uid, row, "")
 	}
@@ -223,11 +233,22 @@ func (sc *pubScn) noteStep(st *c09State, a *pubActor, c *vfClient, stepNo int) {
 			_, ch, _ := sc.c09Rows()
 			ra = ch[author.uid]
 		}
-		if what == "read" && ra.ReadSeqId != seq {
-			r.Violation("valid-note-not-stored:read", fmt.Sprintf("read note seq=%d: stored read=%d", seq, ra.ReadSeqId), wit(nil))
+		// The property states when a mark may move, not that every acceptable note must move it (a note from a
+		// session which is not attached is dropped when the topic is not loaded): a mark which did move must be
+		// exactly the noted one; one which did not is only counted.
+		rb0 := grpRows[author.uid]
+		if a.chanSub {
+			rb0 = chnRows[author.uid]
 		}
-		if what == "recv" && ra.RecvSeqId != seq {
-			r.Violation("valid-note-not-stored:recv", fmt.Sprintf("recv note seq=%d: stored recv=%d", seq, ra.RecvSeqId), wit(nil))
+		switch {
+		case what == "read" && ra.ReadSeqId != rb0.ReadSeqId && ra.ReadSeqId != seq:
+			r.Violation("valid-note-wrong-mark:read", fmt.Sprintf("read note seq=%d: stored read went %d -> %d", seq, rb0.ReadSeqId, ra.ReadSeqId), wit(nil))
+		case what == "recv" && ra.RecvSeqId != rb0.RecvSeqId && ra.RecvSeqId != seq:
+			r.Violation("valid-note-wrong-mark:recv", fmt.Sprintf("recv note seq=%d: stored recv went %d -> %d", seq, rb0.RecvSeqId, ra.RecvSeqId), wit(nil))
+		case (what == "read" && ra.ReadSeqId == seq) || (what == "recv" && ra.RecvSeqId == seq):
+			r.Hit("valid_note_moved_mark")
+		default:
+			r.Hit("valid_note_not_applied_observation")
 		}
 		// only the author's row may change
 		for uid, rb := range grpRows {
